@@ -103,3 +103,19 @@ From XcpPins Require Import Pin_operations_tree_walker.
 Theorem C16_src_pin_operations_tree_walker : pin_unchanged name_operations_tree_walker.
 Proof. exact pin_operations_tree_walker. Qed.
 Print Assumptions C16_src_pin_operations_tree_walker.
+
+(* ---- further functions on this property's path, pinned token for token as validated (dependency review after rounds 5 and 6:
+   each missed change had edited a pinned function that this property did not cite) ---- *)
+From XcpPins Require Import Pin_operations_new Pin_mod_load_driver Pin_parfile_new Pin_parblock_new.
+Theorem C16_src_pin_operations_new : pin_unchanged name_operations_new.
+Proof. exact pin_operations_new. Qed.
+Theorem C16_src_pin_mod_load_driver : pin_unchanged name_mod_load_driver.
+Proof. exact pin_mod_load_driver. Qed.
+Theorem C16_src_pin_parfile_new : pin_unchanged name_parfile_new.
+Proof. exact pin_parfile_new. Qed.
+Theorem C16_src_pin_parblock_new : pin_unchanged name_parblock_new.
+Proof. exact pin_parblock_new. Qed.
+Print Assumptions C16_src_pin_operations_new.
+Print Assumptions C16_src_pin_mod_load_driver.
+Print Assumptions C16_src_pin_parfile_new.
+Print Assumptions C16_src_pin_parblock_new.
